@@ -223,7 +223,7 @@ def _pos(n: ast.AST):
 def _straight_line_return(tg: FuncInfo):
     """The returned expression of a function whose body is straight-line: `pass`, plain assignments to fresh locals
     (expanded as value ids by the evaluator) and one final `return expr`. None otherwise."""
-    body = [s for s in tg.body_without_docstring() if not isinstance(s, ast.Pass)]
+    body = [s for s in tg.body_without_docstring() if not isinstance(s, (ast.Pass, ast.Assert)) and not (isinstance(s, ast.Expr) and isinstance(s.value, ast.Constant))]
     if not body or not isinstance(body[-1], ast.Return) or body[-1].value is None:
         return None
     params = set(tg.params)
